@@ -107,7 +107,14 @@ def _chunk(args):
     out = []
     for (dt, text, lvl, via) in items:
         L = 1 if lvl == "S" else 2
-        e = {"dt": dt, "lvl": lvl, "in": cps(text), "out": [], "via": via, "v": v, "cls": ""}
+        e = {"dt": dt, "lvl": lvl, "in": cps(text), "out": [], "via": via, "v": v, "cls": "", "plus": "n/a", "minus": "n/a"}
+        if dt == "NM" and lvl == "S" and via == "factory" and text[:1] not in ("+", "-"):
+            for key, sign in (("plus", "+"), ("minus", "-")):
+                try:
+                    datatype_factory(dt, sign + text, v, L)
+                    e[key] = "value"
+                except Exception as ex:
+                    e[key] = exc_name(ex)
         try:
             if via == "factory":
                 o = datatype_factory(dt, text, v, L)
